@@ -189,7 +189,7 @@ func genC19(seed uint64, index int, tier string) *run.Plan {
 	for i := 0; i < nalt; i++ {
 		alter := 0
 		if g.Intn(5) != 0 {
-			alter = 1 + g.Intn(22)
+			alter = 1 + g.Intn(23)
 		}
 		p.Faults = append(p.Faults, run.Fault{Kind: "alter", A: alter, B: g.Intn(1 << 16), C: g.Intn(8)})
 	}
@@ -234,6 +234,11 @@ func genC19(seed uint64, index int, tier string) *run.Plan {
 	}
 	if g.Intn(8) == 0 {
 		p.P["zero_key"] = 1 // the wallet's public key starts with a zero byte
+	}
+	if g.Intn(120) == 0 {
+		// a long-lived server: every check is made this many times more, one after the other (whatever a request
+		// leaves behind in the server accumulates)
+		p.P["repeat"] = []int{70, 150}[g.Intn(2)]
 	}
 	return p
 }
@@ -364,6 +369,20 @@ func execC19(t *testing.T, w *core.World, p *run.Plan, r *run.Result) {
 		}
 		signed = pr
 		w.Logf("proof signed")
+		// what the library put into the proof is the wallet's initial state: it hashes to the wallet's address
+		// (hand-built, section 5.5) and the address in the proof is that address
+		if cells, err := boc.DeserializeBocBase64(pr.Proof.StateInit); err != nil || len(cells) != 1 {
+			w.Violate("C19.create", "C19.create|state-init", fmt.Sprintf("the state-init in the created proof is not a single-root BOC: %v", err))
+		} else {
+			h := fromLib(cells[0])
+			h.compute()
+			if h.hash != [32]byte(addr.Address) {
+				w.Violate("C19.create", "C19.create|state-init", fmt.Sprintf("%s wallet: the state-init in the created proof hashes to %x, the wallet's address is %s", ver.ToString(), h.hash, addr.ToRaw()))
+			}
+		}
+		if pr.Address != addr.ToRaw() {
+			w.Violate("C19.create", "C19.create|address", fmt.Sprintf("proof created for %s carries address %s", addr.ToRaw(), pr.Address))
+		}
 	})
 	// ---- the channel: every delivery may alter the proof ----
 	alterProof := func(proof *tonconnect.Proof, alter, aB, aC int) {
@@ -442,6 +461,12 @@ func execC19(t *testing.T, w *core.World, p *run.Plan, r *run.Result) {
 			resign(apriv)
 		case 19: // no state-init at all
 			proof.Proof.StateInit = ""
+		case 23:
+			// one cell of the state-init container filled with one-bits (or zeros): unary lengths and dictionary
+			// labels run to the end of the cell
+			if raw, err := base64.StdEncoding.DecodeString(proof.Proof.StateInit); err == nil {
+				proof.Proof.StateInit = base64.StdEncoding.EncodeToString(bocFillCell(raw, aB, aC))
+			}
 		case 22:
 			// the same account hash under another workchain number, also one that is congruent modulo 2^8 or 2^16
 			// (a workchain is a signed 32-bit number in the signed message)
@@ -518,32 +543,39 @@ func execC19(t *testing.T, w *core.World, p *run.Plan, r *run.Result) {
 							issue(op.A % len(servers))
 						}()
 					}
-					v := verdict{at: w.Now(), srv: op.A, proof: pr, ord: i*16 + b, alter: alt.A}
-					func() {
-						defer func() {
-							if x := recover(); x != nil {
-								v.panicked = x
-								v.stack = repoFrames(string(debug.Stack()))
-							}
-						}()
-						s := servers[op.A%len(servers)]
-						checkPayload, checkDomain := s.srv.CheckPayload, (func(string) (bool, error))(tonconnect.StaticDomain(domain))
-						switch p.Get("checker", 0) {
-						case 1:
-							srv := s.srv
-							checkPayload = func(pl string) (bool, error) { ok, _ := srv.CheckPayload(pl); return ok, nil }
-						case 2:
-							checkDomain = func(d string) (bool, error) {
-								if d != domain {
-									return false, errors.New("authsim: unknown domain")
-								}
-								return true, nil
-							}
+					for k := 0; k <= p.Get("repeat", 0); k++ {
+						if k > 0 {
+							time.Sleep(time.Millisecond)
 						}
-						v.ok, v.key, v.err = s.srv.CheckProof(context.Background(), &pr, checkPayload, checkDomain)
-					}()
+						v := verdict{at: w.Now(), srv: op.A, proof: pr, ord: (i*16+b)*256 + k, alter: alt.A}
+						func() {
+							defer func() {
+								if x := recover(); x != nil {
+									v.panicked = x
+									v.stack = repoFrames(string(debug.Stack()))
+								}
+							}()
+							s := servers[op.A%len(servers)]
+							checkPayload, checkDomain := s.srv.CheckPayload, (func(string) (bool, error))(tonconnect.StaticDomain(domain))
+							switch p.Get("checker", 0) {
+							case 1:
+								srv := s.srv
+								checkPayload = func(pl string) (bool, error) { ok, _ := srv.CheckPayload(pl); return ok, nil }
+							case 2:
+								checkDomain = func(d string) (bool, error) {
+									if d != domain {
+										return false, errors.New("authsim: unknown domain")
+									}
+									return true, nil
+								}
+							}
+							v.ok, v.key, v.err = s.srv.CheckProof(context.Background(), &pr, checkPayload, checkDomain)
+						}()
+						vmu.Lock()
+						verdicts = append(verdicts, v)
+						vmu.Unlock()
+					}
 					vmu.Lock()
-					verdicts = append(verdicts, v)
 					pendingChecks--
 					vmu.Unlock()
 				}()
@@ -555,9 +587,12 @@ func execC19(t *testing.T, w *core.World, p *run.Plan, r *run.Result) {
 		vmu.Lock()
 		defer vmu.Unlock()
 		return done || (opsScheduled == nCheckOps && pendingChecks == 0)
-	}, 20000, 12*time.Hour)
+	}, 200000, 12*time.Hour)
 	vmu.Lock()
 	defer vmu.Unlock()
+	if pendingChecks > 0 && !done && w.Steps < 200000 {
+		w.Violate("C19.no-return", "C19.no-return", fmt.Sprintf("%d CheckProof calls have not returned after %v of simulated time with nothing left to wait for (%d verdicts so far; executor mode %d)", pendingChecks, w.Now(), len(verdicts), ex.mode))
+	}
 	r.Nontrivial = len(verdicts) > 0
 	sort.SliceStable(verdicts, func(i, j int) bool { return verdicts[i].ord < verdicts[j].ord })
 
@@ -668,7 +703,7 @@ func execC19(t *testing.T, w *core.World, p *run.Plan, r *run.Result) {
 		if implAccept && !accept {
 			w.Violate("C19.accept", "C19.accept-wrong|"+strings.TrimSpace(reason), fmt.Sprintf("%s: accepted a proof the reference rejects (%s; executor mode %d key=%d; server %d at +%v)", alt, reason, ex.mode, p.Get("exec_key", 0), v.srv, v.at))
 		}
-		if !implAccept && accept && (alter == 9 || alter == 21) && !ex.answers() {
+		if !implAccept && accept && (alter == 9 || alter == 21 || alter == 23) && !ex.answers() {
 			// a flipped bit of the state-init container can change parts of a cell the harness' level-0
 			// hasher does not model (level mask, stored hashes): the library may legitimately find that
 			// the container no longer hashes to the address. Only the accepting direction is judged here.
@@ -711,7 +746,7 @@ func stripNums(s string) string {
 func init() {
 	run.Register(&run.Engine{ID: "C19", Gen: genC19, Exec: execC19, Meta: run.Meta{
 		Technique:   "deterministic simulation: three-party timed protocol (wallet, adversarial channel, server) plus a failing/lying get-method executor under one simulated clock; reference acceptance model as oracle",
-		Rule:        "one run = a history: the server issues payloads, a wallet (version x key x workchain, clock skew up to +-10 min) signs after a drawn delay, the channel delivers the proof unaltered or with one of 22 alterations (field substitutions, bit flips, attacker-built state-inits incl. no code / no data / unknown contract / multi-root / garbage, wrong-length payload or signature, full attacker proof, descriptor-level container corruption, small-order key forgery, the same account hash under a congruent workchain number), the server checks it 1-3 times at drawn instants around the payload/proof lifetimes, possibly at a server with another secret or other lifetimes, with an executor that answers with the wallet's key, another key, an error, a malformed stack, a short key, a failure exit code, -2^256, a tiny integer or zero, possibly after a delay; the payload and domain checks are passed as the server's own methods, as (verdict, nil) wrappers or as error-reporting wrappers. Non-trivial = at least one check ran; distinct = distinct event-log digest. Abstract state = (alteration, executor mode, server, reference verdict and reason).",
+		Rule:        "one run = a history: the server issues payloads, a wallet (version x key x workchain, clock skew up to +-10 min) signs after a drawn delay, the channel delivers the proof unaltered or with one of 23 alterations (field substitutions, bit flips, attacker-built state-inits incl. no code / no data / unknown contract / multi-root / garbage, wrong-length payload or signature, full attacker proof, descriptor-level container corruption, small-order key forgery, the same account hash under a congruent workchain number), the server checks it 1-3 times at drawn instants around the payload/proof lifetimes, possibly at a server with another secret or other lifetimes, with an executor that answers with the wallet's key, another key, an error, a malformed stack, a short key, a failure exit code, -2^256, a tiny integer or zero, possibly after a delay; the payload and domain checks are passed as the server's own methods, as (verdict, nil) wrappers or as error-reporting wrappers. Non-trivial = at least one check ran; distinct = distinct event-log digest. Abstract state = (alteration, executor mode, server, reference verdict and reason).",
 		Real:        []string{"tonconnect.Server: GeneratePayload, CheckPayload, CheckProof, ParseStateInit, getWalletPubKey", "tonconnect.CreateSignedProof", "abi.GetPublicKey decoding of the executor's stack", "wallet.GenerateStateInit, ton.ParseAccountID, boc/tlb decoders underneath"},
 		Simulated:   []string{"clock (testing/synctest) incl. wallet clock skew", "the channel between wallet and server (adversary)", "the abi.Executor party", "crypto/rand (seeded)"},
 		Assumptions: []string{"within +-1 s of an expiry boundary the verdict is not judged (the implementation truncates to Unix seconds; the property does not fix the rounding)", "proof timestamps in the future are not judged as expired", "alteration 20 forges a signature for the all-zero key (an Ed25519 point of order 4) with github.com/oasisprotocol/curve25519-voi; other small-order keys are not tried", "boc.DeserializeBocBase64 is trusted to enumerate the cells of a state-init; the key offset per wallet version is laid out by the harness"},
